@@ -433,7 +433,7 @@ func (p *product) at(i int64) (*refStyle, string) {
 type nodeOpt struct {
 	kind     int    // 0..3 concrete kinds, 4 = extends
 	target   string // extends target: "@0" "@1" "@2" (node), "missing", "upper-roman"
-	override int    // 0 none, 1 pad, 2 range, 3 negative+suffix
+	override int    // 0 none, 1 pad, 2 range, 3 negative+suffix, 4 range: auto written explicitly
 	fallback string // "" "@0" "@1" "@2" "missing"
 }
 
@@ -532,6 +532,11 @@ func (g *graphSpace) node(n int, o nodeOpt) *refStyle {
 		case 3:
 			s.HasNegative, s.NegPre, s.NegSuf = true, "<", ">"
 			s.HasSuffix, s.Suffix = true, ")"
+		case 4:
+			// "range: auto" is a specified descriptor: the extended style's range (upper-roman's
+			// 1 3999, kind 1's 2 4, kind 3's -4 6, another node's override 2) is NOT taken over,
+			// the range is the automatic one of the resolved system
+			s.HasRange, s.RangeAuto = true, true
 		}
 	}
 	s.Fallback = g.resolveName(o.fallback)
